@@ -39,8 +39,14 @@ var zzMissing map[string]bool
 
 //gosmt:stub (*github.com/go-task/task/v3/taskfile.Reader).readNode
 func zzReadNode(r *Reader, ctx context.Context, node Node) (*ast.Taskfile, error) {
+	if err, ok := zzReadErrors[node.Location()]; ok {
+		return nil, err
+	}
 	return zzASTs[node.Location()](), nil
 }
+
+// zzReadErrors: locations whose reading fails with the given error
+var zzReadErrors map[string]error
 
 //gosmt:stub os.Environ
 func zzEnviron() []string {
